@@ -316,7 +316,12 @@ func (r *Report) Finish(tier string, seed int, start time.Time, evPath, knownPat
 	if 0 != len(bad) {
 		replay := filepath.Join(filepath.Dir(evPath), "replay", r.Property+".json")
 		if "" == evPath {
-			replay = filepath.Join(os.TempDir(), "crscheck-replay-"+r.Property+".json")
+			replay = filepath.Join(os.TempDir(), fmt.Sprintf("crscheck-replay-%s-%d.json", r.Property, os.Getpid()))
+		}
+		if "" != os.Getenv("CRS_NOREPLAY") {
+			/* A child run of the self-test batteries: nobody replays it. */
+			fmt.Printf("VIOLATION property=%s replay=-\n", r.Property)
+			return 1
 		}
 		if err := writeJSON(replay, bad); nil != err {
 			fmt.Printf("ERROR writing replay: %s\n", err)
@@ -336,7 +341,7 @@ func writeJSON(path string, v any) error {
 	if nil != err {
 		return err
 	}
-	tmp := path + ".tmp"
+	tmp := fmt.Sprintf("%s.%d.tmp", path, os.Getpid())
 	if err := os.WriteFile(tmp, append(b, '\n'), 0o644); nil != err {
 		return err
 	}
